@@ -25,16 +25,23 @@ META = dict(
                "A task is the source's broker's own iff it was declared on that broker object; a task declared through a "
                "shared broker (async_shared_broker.task) is foreign whatever default_broker() says - sends of shared tasks "
                "go through the default broker, their schedule labels do not become that broker's. "
-               "Broker middlewares are not in the model (C10). prepare_label is a Section variable (C09).",
+               "Broker middlewares are not in the model (C10). prepare_label is a Section variable (C09). "
+               "'The schedule's arguments' of a sent message = what the broker's own formatter decodes from it, compared with the "
+               "JSON form of the schedule's args / kwargs (pydantic's mode='json', asked of pydantic directly; the identity on "
+               "None / bool / int / float / str / list / dict); the order in which a set is written out is not demanded; with a "
+               "serializer that carries Python objects (pickle) the values themselves arriving is accepted as well.",
     rule="case = on_ready scenario (payload, callback kinds, outcomes) or label-source history (global+local registries "
          "with foreign tasks of another broker object / of a shared broker before and after default_broker() / hidden in "
          "another broker's local registry, listing/firing operations); non-trivial iff >= 2 entries share a task or a time, or a callback cancels / raises / "
          "is not a plain sync def (async def, or a def returning a Future / Task / __await__ object / gather / shield / "
-         "executor future / generator-based coroutine); distinct by canonical JSON of the case",
+         "executor future / generator-based coroutine), or args / kwargs hold a value that is not a JSON native (date, UUID, "
+         "enum member, Decimal, set, bytes, nested model / dataclass ...); distinct by canonical JSON of the case",
     trusted_base=["model: coq/theories/SchedSource.v (hand-written transcription of scheduler.py, kicker.py message preparation, "
                   "label_based.py, AsyncBroker.get_all_tasks)",
                   "taskiq.labels.prepare_label supplies the expected wire form of each label value (Section variable `prepare`)",
-                  "datetime -> number mapping in harness/props/C16.py (naive 2*us, aware 2*instant+1)"],
+                  "datetime -> number mapping in harness/props/C16.py (naive 2*us, aware 2*instant+1)",
+                  "pydantic (TypeAdapter(Any).dump_python(mode='json'), called by the driver, not through taskiq) supplies the "
+                  "expected decoded form of args / kwargs that are not JSON natives; the model carries args / kwargs opaquely"],
     assumptions=["label dict objects are not shared between entries (no aliasing)", "cron strings are non-empty",
                  "no broker middlewares"],
 )
@@ -222,7 +229,10 @@ def label_oracle(c, obs, rep):
                 return "listing changed the set of declared entries", k
         else:
             s = o["sched"]
-            bad = fire_oracle("ok", True, s["sid"], s["task"], s["args"], s["kwargs"], o["expect_labels"], o["effects"])
+            # wire_args / wire_kwargs: JSON form of the schedule's args / kwargs (pydantic's, computed by the driver without
+            # taskiq; the identity on JSON natives) - what a decoded message holds
+            bad = fire_oracle("ok", True, s["sid"], s["task"], o.get("wire_args", s["args"]), o.get("wire_kwargs", s["kwargs"]),
+                              o["expect_labels"], o["effects"])
             if bad:
                 return bad, k
             pure = s["cron"] is None and s["time"] is not None
@@ -290,6 +300,178 @@ def gen_kwargs(r):
     return {k: r.choice([1, "v", None, [0]]) for k in r.sample(["a", "b", "c"], r.randint(0, 2))}
 
 
+# ---- payload values that are not JSON natives (tagged the way the driver's dec / canon code them)
+def skey(x):
+    return json.dumps(x, sort_keys=True)
+
+
+def rich_date(r):
+    return {"__date__": [r.choice([1999, 2024, 2030]), r.choice([1, 2, 12]), r.choice([1, 15, 28])]}
+
+
+def rich_dt(r):
+    us = (1_700_000_000 + r.randint(0, 10**6)) * 10**6 + r.choice([0, 0, 4, 250_000])
+    if r.random() < .5:
+        return {"__dt__": {"naive": us}}
+    return {"__dt__": {"aware": us, "offmin": r.choice([0, 0, 60, -300, 330])}}
+
+
+def rich_hashable(r):
+    """a value that can sit in a set / be a dict key"""
+    k = r.randrange(8)
+    if k == 0:
+        return rich_date(r)
+    if k == 1:
+        return {"__uuid__": "%032x" % r.choice([5, 2**127 + 3, 0x1234567812345678_1234567812345678])}
+    if k == 2:
+        return {"__enum__": r.choice([["Mode", "FULL"], ["Mode", "DELTA"], ["Level", "HIGH"]])}   # no str / int mixins: Kind.B == "b"
+    if k == 3:
+        return {"__tuple__": [r.randint(0, 3), r.choice(["a", "b"])]}
+    if k == 4:
+        return r.randint(0, 9)
+    return r.choice(["a", "b", "tag", ""])
+
+
+def rich_set(r):
+    els = {skey(x): x for x in (rich_hashable(r) for _ in range(r.randint(0, 3)))}
+    # 1 == True, Prio.P0 == 0 ...: equal-but-different elements would make the set depend on insertion order
+    els = {k: x for k, x in els.items() if not isinstance(x, bool)}
+    return {r.choice(["__set__", "__fset__"]): [els[k] for k in sorted(els)]}
+
+
+def rich_window(r):
+    tags = sorted({r.choice(["a", "b", "eu", "x y"]) for _ in range(r.randint(0, 2))})
+    return {"__model__": ["Window", {"since": rich_date(r), "until": r.choice([None, rich_dt(r)]), "tags": {"__set__": tags}}]}
+
+
+def rich_point(r, inner):
+    return {"__dc__": ["Point", {"x": r.randint(-2, 5), "when": inner}]}
+
+
+RICH_KINDS = ["date", "date", "datetime", "datetime", "time", "timedelta", "uuid", "uuid", "enum", "enum", "intenum", "strenum",
+              "flag", "decimal", "decimal", "set", "set", "bytes", "bytearray", "path", "ip", "model", "model", "model_nested",
+              "model_own_serializer", "dataclass", "dataclass", "dataclass_nested", "pydantic_dataclass", "tuple", "tuple",
+              "namedtuple", "nonstr_keys", "odict"]
+
+
+def rich_leaf(r, kind=None):
+    """(kind, tagged value): one value that is not a JSON native but that pydantic's JSON mode - hence taskiq - accepts"""
+    k = kind or r.choice(RICH_KINDS)
+    if k == "date":
+        v = rich_date(r)
+    elif k == "datetime":
+        v = rich_dt(r)
+    elif k == "time":
+        v = {"__time__": [r.choice([0, 3_723_000_000, 86_399_999_999, 45_000_000_250]), r.choice([None, None, 0, 330, -60])]}
+    elif k == "timedelta":
+        v = {"__td__": r.choice([0, 5, 3_600_000_000, -5_000_000, 86_400_000_000 * 400 + 1])}
+    elif k == "uuid":
+        v = {"__uuid__": "%032x" % r.choice([0, 5, 2**127 + 3, 0x1234567812345678_1234567812345678])}
+    elif k == "enum":
+        v = {"__enum__": r.choice([["Mode", "FULL"], ["Mode", "DELTA"], ["Level", "LOW"], ["Level", "HIGH"]])}
+    elif k == "intenum":
+        v = {"__enum__": ["Prio", r.choice(["P0", "P2"])]}
+    elif k == "strenum":
+        v = {"__enum__": ["Kind", r.choice(["A", "B"])]}
+    elif k == "flag":
+        v = {"__enum__": ["Perm", r.choice([1, 3, 6, 7])]}
+    elif k == "decimal":
+        v = {"__dec__": r.choice(["1.50", "0", "-0.0", "1E+3", "12345678901234567890.123456789", "NaN"])}
+    elif k == "set":
+        v = rich_set(r)
+    elif k == "bytes":
+        v = {"__bytes__": r.choice([b"", b"ab", "h\u00e9".encode(), b"x y\n"]).hex()}       # UTF-8 only (see notes)
+    elif k == "bytearray":
+        v = {"__bytearray__": r.choice([b"", b"ab", b"q"]).hex()}
+    elif k == "path":
+        v = {"__path__": r.choice(["/x/y", "a/b.txt", "."])}
+    elif k == "ip":
+        v = {"__ip__": r.choice(["1.2.3.4", "::1"])}
+    elif k == "model":
+        v = rich_window(r)
+    elif k == "model_nested":
+        v = {"__model__": ["Job", {"id": {"__uuid__": "%032x" % r.randint(0, 99)}, "mode": {"__enum__": ["Mode", r.choice(["FULL", "DELTA"])]},
+                                   "window": r.choice([None, rich_window(r)]),
+                                   "extra": r.choice([None, 1, "s", rich_date(r), [rich_dt(r)], {"k": rich_set(r)}])}]}
+    elif k == "model_own_serializer":
+        v = {"__model__": ["Money", {"amount": {"__dec__": r.choice(["1.50", "100"])}, "cur": r.choice(["EUR", "USD"])}]}
+    elif k == "dataclass":
+        v = rich_point(r, r.choice([None, 3, "s", rich_date(r), rich_dt(r), [rich_date(r)], rich_window(r)]))
+    elif k == "dataclass_nested":
+        v = {"__dc__": ["Span", {"first": rich_point(r, r.choice([None, rich_date(r)])),
+                                 "note": r.choice([None, "n", {"__tuple__": [1, rich_date(r)]}, rich_point(r, None)])}]}
+    elif k == "pydantic_dataclass":
+        v = {"__dc__": ["Day", {"n": r.randint(0, 3), "day": rich_date(r)}]}
+    elif k == "tuple":
+        v = {"__tuple__": [r.choice([1, "a", None, rich_date(r), [2]]) for _ in range(r.randint(0, 3))]}
+    elif k == "namedtuple":
+        v = {"__nt__": [r.randint(0, 3), r.choice(["b", None, rich_date(r)])]}
+    elif k == "nonstr_keys":
+        nonstr = [1, 2, None, rich_date(r), {"__enum__": ["Mode", "FULL"]}, {"__tuple__": [1, 2]}, {"__float__": (1.5).hex()}]
+        ks = [r.choice(nonstr)] + [r.choice(nonstr + ["s", "t"]) for _ in range(r.randint(0, 1))]
+        ks = {skey(x): x for x in ks}
+        v = {"__map__": [[x, r.choice([1, "v", None, [0]])] for x in ks.values()]}
+    elif k == "odict":
+        v = {"__odict__": [[x, r.choice([1, rich_date(r)])] for x in r.sample(["z", "a", "m"], r.randint(1, 2))]}
+    else:
+        raise AssertionError(k)
+    return k, v
+
+
+def wrap_rich(r, v):
+    """one level of list / dict around a value, next to plain JSON natives"""
+    plain = lambda: r.choice([r.randint(0, 9), "s", None, True, [1, 2], {"k": 1}])   # noqa: E731
+    if r.random() < .5:
+        out = [plain() for _ in range(r.randint(0, 2))]
+        out.insert(r.randint(0, len(out)), v)
+        return out
+    out = {k: plain() for k in r.sample(["p", "q"], r.randint(0, 1))}
+    out[r.choice(["k", "until", "window"])] = v
+    return out
+
+
+def enrich(r, args, kwargs):
+    """put one to three non-JSON-native values into args / kwargs, at depth 0..2 inside lists / dicts.
+    Returns what was put where (for the evidence distribution)."""
+    info = []
+    for _ in range(r.choice([1, 1, 1, 2, 3])):
+        kind, v = rich_leaf(r)
+        depth = r.choice([0, 0, 1, 1, 2])
+        for _ in range(depth):
+            v = wrap_rich(r, v)
+        if r.random() < .5:
+            args.insert(r.randint(0, len(args)), v)
+            where = "args"
+        else:
+            kwargs[r.choice(["a", "b", "c", "since", "mode"])] = v
+            where = "kwargs"
+        info.append([kind, depth, where])
+    return info
+
+
+def gen_broker(r):
+    """formatter / serializer configuration of the broker (see configure in the driver)"""
+    conf = {}
+    k = r.random()
+    if k < .45:
+        conf["fmt"] = r.choice(["json", "json", "proxy", "proxy_sub"])
+    k = r.random()
+    if k < .3:
+        conf["ser"] = r.choice(["json", "json_default", "json_default", "pickle"])
+    if conf and r.random() < .3:
+        conf["late"] = True
+    return conf
+
+
+def is_rich(v):
+    """does this case value hold a tagged (not JSON-native) value"""
+    if isinstance(v, dict):
+        return any(k.startswith("__") and k.endswith("__") for k in v) or any(is_rich(x) for x in v.values())
+    if isinstance(v, list):
+        return any(is_rich(x) for x in v)
+    return False
+
+
 def gen_time(r, base=1_900_000_000):
     us = (base + 60 * r.randint(0, 2)) * 10**6
     if r.random() < .8:
@@ -325,6 +507,14 @@ def gen_fire(r):
         c["registered"] = False                                   # a source the scheduler was not built with
     if c["pre"] == "cancel" and r.random() < .2:
         c["cancel_cls"] = "sub"
+    # a fifth of the scenarios: args / kwargs hold values that are not JSON natives; a fifth (independently): the broker's
+    # formatter / serializer are not the ones AsyncBroker.__init__ put there
+    if r.random() < .2:
+        c["rich"] = enrich(r, p["args"], p["kwargs"])
+    if r.random() < .2:
+        conf = gen_broker(r)
+        if conf:
+            c["broker"] = conf
     return c
 
 
@@ -360,6 +550,8 @@ def gen_entry(r, uid):
 
 def gen_label(r, exhaustive_ops=None):
     uid = [0]
+    rich = r.random() < .15 and not exhaustive_ops       # histories whose entries carry non-JSON-native args / kwargs
+    info = []
 
     def task(name, own):
         ents = None
@@ -368,6 +560,11 @@ def gen_label(r, exhaustive_ops=None):
             for _ in range(r.choice([0, 1, 2, 2, 3, 4, 5])):
                 uid[0] += 1
                 ents.append(gen_entry(r, uid[0]))
+                if rich and r.random() < .4:
+                    e = ents[-1]
+                    e.setdefault("args", [])
+                    e.setdefault("kwargs", {})
+                    info.extend(enrich(r, e["args"], e["kwargs"]))
         return dict(name=name, own=own, labels={k: v for k, v in gen_labels(r, False).items()}, schedule=ents)
 
     names = ["t0", "t1", "t2", "t3"]
@@ -385,6 +582,12 @@ def gen_label(r, exhaustive_ops=None):
         c["cb_style"] = r.choice(LABEL_CB_STYLES)     # a wrapping source that defers the label source's own callbacks
     if r.random() < .25 and not exhaustive_ops:
         deployment(r, c, task)
+    if not exhaustive_ops and r.random() < (.5 if rich else .1):
+        conf = gen_broker(r)
+        if conf:
+            c["broker"] = conf
+    if info:
+        c["rich"] = info
     return c
 
 
@@ -475,9 +678,53 @@ def count_deployment(rep, c, obs):
         rep.count("label:declared with the decorator form")
 
 
+def rich_tags(v, depth=0, out=None):
+    """(tag, depth) of every tagged value in a case value (depth = number of lists / dicts / tagged containers around it)"""
+    out = [] if out is None else out
+    if isinstance(v, dict):
+        tag = [k for k in v if k.startswith("__") and k.endswith("__")]
+        if tag:
+            out.append((tag[0], depth))
+            x = v[tag[0]]
+            rich_tags(x[1] if tag[0] in ("__model__", "__dc__") else x if isinstance(x, (list, dict)) else None, depth + 1, out)
+        else:
+            for x in v.values():
+                rich_tags(x, depth + 1, out)
+    elif isinstance(v, list):
+        for x in v:
+            rich_tags(x, depth + 1, out)
+    return out
+
+
+def count_payload(rep, fam, c, payloads, info, sent):
+    """evidence distribution of the payload kinds and of the broker's formatter / serializer"""
+    conf = c.get("broker") or {}
+    rep.count("%s:broker formatter=%s" % (fam, conf.get("fmt", "default")))
+    rep.count("%s:broker serializer=%s" % (fam, conf.get("ser", "default")))
+    if conf.get("late"):
+        rep.count("%s:broker formatter / serializer set after the scheduler was built" % fam)
+    for kind, depth, where in info:
+        rep.count("%s:payload value kind=%s" % (fam, kind))
+        rep.count("%s:payload non-JSON-native value in %s at depth %d" % (fam, where, depth))
+    rich = False
+    for args, kwargs in payloads:
+        tags = rich_tags(args, -1) + rich_tags(kwargs, -1)
+        rich = rich or bool(tags)
+        for tag in {t for t, _ in tags}:
+            rep.count("%s:fired payload holds %s" % (fam, tag))
+    if rich:
+        rep.count("%s:%s with non-JSON-native args / kwargs, formatter=%s" % (
+            fam, "scenario" if fam == "fire" else "history firing entries", conf.get("fmt", "default")))
+        if "ser" in conf:
+            rep.count("%s:non-JSON-native args / kwargs, serializer=%s" % (fam, conf["ser"]))
+        if sent:
+            rep.count("%s:non-JSON-native payload reached kick()" % fam)
+
+
 def nontrivial(c):
     if c["type"] == "fire":
-        return c["pre"] != "ok" or style_of(c, "pre") != "sync" or style_of(c, "post") != "sync"
+        return (c["pre"] != "ok" or style_of(c, "pre") != "sync" or style_of(c, "post") != "sync"
+                or is_rich(c["payload"]["args"]) or is_rich(c["payload"]["kwargs"]))
     for t in c["globals"] + c["locals"]:
         ents = [e for e in (t["schedule"] or []) if "cron" in e or "time" in e]
         if len(ents) >= 2:
@@ -530,9 +777,11 @@ def lit_label(c, o):
             ops.append("(OList %s %s)" % (res, c_view(x["view"], T)))
         elif x["op"] == "fire":
             s = x["sched"]
+            s = dict(s, args=x.get("wire_args", s["args"]), kwargs=x.get("wire_kwargs", s["kwargs"]))
             ops.append("(OFire %s %s %s %s)" % (c_payload(s, T, c_wire_labels(x["expect_labels"], T)), C.cn(T.sid(s["sid"])),
                                                 c_effects(x["effects"], s["sid"], T), c_view(x["view"], T)))
-    return C.cpair(C.clist([c_task(t, T) for t in c["globals"]]), C.clist([c_task(t, T) for t in c["locals"]]),
+    tasks = lambda ts: C.clist([c_task(t, T) for t in ts]) if ts else "(@nil task)"   # noqa: E731 - typed when a case is replayed alone
+    return C.cpair(tasks(c["globals"]), tasks(c["locals"]),
                    c_view(obs[0]["view"], T), C.clist(ops))
 
 
@@ -564,6 +813,8 @@ def explore(ctx, rep, cases, label):
             if c.get("cancel_cls") == "sub":
                 rep.count("fire:cancel by subclass")
             p = c["payload"]
+            count_payload(rep, "fire", c, [[p["args"], p["kwargs"]]], c.get("rich", []),
+                          c["pre"] == "ok" and any(e[0] == "kick" for e in o["effects"]))
             bad = fire_oracle(c["pre"], c["kick_ok"], c["sid"], p["task"], o["sched_args"], o["sched_kwargs"],
                               o["expect_labels"], o["effects"])
             if bad:
@@ -576,6 +827,12 @@ def explore(ctx, rep, cases, label):
         else:
             rep.count("label:cb_style=%s" % c.get("cb_style", "sync"))
             count_deployment(rep, c, o["obs"])
+            fired = [[x["sched"]["args"], x["sched"]["kwargs"]] for x in o["obs"] if x["op"] == "fire"]
+            count_payload(rep, "label", c, fired, c.get("rich", []), any(x["op"] == "fire" and is_rich([x["sched"]["args"], x["sched"]["kwargs"]])
+                                                          and any(e[0] == "kick" for e in x["effects"]) for x in o["obs"]))
+            if any(is_rich(e.get("args", [])) or is_rich(e.get("kwargs", {})) for t in c["globals"] + c["locals"]
+                   for e in (t["schedule"] or [])):
+                rep.count("label:history with entries whose args / kwargs are not JSON-native")
             for x in o["obs"]:
                 rep.count("label:op=" + x["op"])
                 if x.get("by_hand"):
